@@ -760,6 +760,21 @@ pub fn run_concurrent(cfg: &Cfg, out: &mut Out) {
                     Role::Drainer { calls: vec![true, true] },
                 ],
             }
+        } else if i == 22 || i == 23 {
+            // (round 4, after seed C07-8) LONG stall: a recorder of key 0 is held between its slot claim and its publish for
+            // dozens of rounds of the drain's quiescence wait (another key's recorder keeps ticking so that the waiting drain
+            // is granted again and again); the wait must last as long as the writer is in flight — a drain that gives up
+            // after a bounded number of rounds reads a block with a claimed, unpublished slot and the sample is lost
+            Spec {
+                buckets: i == 23,
+                nkeys: 2,
+                prefill: vec![if i == 22 { 3 } else { 62 }, 0],
+                roles: vec![
+                    Role::Recorder { key: 0, calls: vec![(1.0, 1)] },
+                    Role::Recorder { key: 1, calls: (0..24).map(|_| (2.0, 1)).collect() },
+                    Role::Drainer { calls: vec![i == 22, true] },
+                ],
+            }
         } else {
             random_spec(&mut r)
         };
@@ -806,6 +821,16 @@ pub fn run_concurrent(cfg: &Cfg, out: &mut Out) {
             sch.extend(vec![1; 8]);
             sch.extend(vec![2; 80]);
             out.count("concurrent.corpus:failed-detach-is-retried-two-keys");
+        }
+        if (i == 22 || i == 23) && !degraded {
+            sch.extend(vec![0; 3]); // recorder of key 0: start, load tail, claim → parked before its publish
+            for _ in 0..70 {
+                sch.push(2); // the drain pass: reaches key 0's block and waits for it to quiesce …
+                sch.push(1); // … while the other key's recorder keeps making progress
+            }
+            sch.extend(vec![0; 6]); // the stalled writer publishes and finishes
+            sch.extend(vec![2; 80]);
+            out.count("concurrent.corpus:long-stalled-writer");
         }
         if targeted {
             let nrec = nt - 1;
